@@ -35,6 +35,8 @@ fn rule_r1(rng: &mut Rng, identity: bool) -> String {
   let cons = p(vec![
     ("A", r#"{"regex": "^a"}"#.to_string()),
     ("B", r#"{"any": [{"pattern": "$C"}, {"kind": "identifier"}]}"#.to_string()),
+    // a constraint on a variable that only another constraint's pattern captures (a chained constraint)
+    ("C", r#"{"kind": "number"}"#.to_string()),
   ], rng);
   let trans = p(vec![
     ("X", r#"{"substring": {"source": "$Y", "startChar": 1}}"#.to_string()),
